@@ -1987,6 +1987,8 @@ def _symbytes_decode(self, encoding="utf-8", errors="strict"):
                 if enc == "ascii":
                     if errors == "strict":
                         raise UnicodeDecodeError("ascii", b"\x80", 0, 1, "ordinal not in range(128)")
+                elif errors != "strict":
+                    return SymStr(SymBytes(n, self.get, self.items), "utf8")  # lenient decoding never fails
                 else:
                     # a byte >= 0x80: whether the whole string is valid UTF-8 depends on its neighbours;
                     # both outcomes are explored (over-approximation of the decoder)
